@@ -4,75 +4,16 @@ import os
 
 ROOT = os.path.dirname(os.path.dirname(os.path.abspath(__file__)))
 
-CLAIMED = {
-    "C12": dict(
-        text="Lean 4 theorem C12_filter_eq_spec: for every text the model of filter_ignore_block equals the two-state "
-             "scanner that is the property's reading (plus block / unclosed / stray-end / offset-0 corollaries and the "
-             "per-character mask theorem), markers taken from the generated table. The model is tied to the code by an "
-             "exhaustive token-sequence differential through the compiled model driver and an independent scanner oracle.",
-        note="Trusted: Lean kernel (axioms propext/Classical.choice/Quot.sound only), gen_tables.py, the correspondence "
-             "harness, CPython str semantics mirrored by Py.findSub/take/drop. Tag recognition inside the kept text is "
-             "exercised end-to-end by the extract stream against generator ground truth (regex engine modelled under C02).",
-        technique="Lean 4 proof (fun_induction over the model, scanner refinement) + model/implementation differential",
-        design="§4 C12",
-    ),
-}
+def load_claims():
+    """One JSON file per claimed property in harness/claims/ (text, note, technique, design)."""
+    import glob
+    out = {}
+    for p in sorted(glob.glob(os.path.join(ROOT, "harness", "claims", "C*.json"))):
+        out[os.path.splitext(os.path.basename(p))[0]] = json.load(open(p))
+    return out
 
-CLAIMED["C05"] = dict(
-    text="Lean 4 theorems C05_sound / C05_complete / C05_exact: for every glob (without a lone final backslash) and every "
-         "path of any length, the model of AnnotationsItem.matches accepts the path iff it is in the declaratively "
-         "specified language (sandwich Narrow <= impl <= Wide, and impl = Wide exactly); proved through a verified "
-         "backtracking matcher (bt_sound/bt_complete) for the regex fragment the code emits. Tied to the code by an "
-         "exhaustive glob x path differential (781x781 quick, 3906x3906 thorough) plus random items.",
-    note="Trusted: Lean kernel, the correspondence harness, CPython re for the emitted fragment (mirrored by Py.Re.bt and "
-         "compared exhaustively), the reading of the written language in Spec/Glob.lean ('**/' may match zero directories "
-         "in the wide reading). A lone final backslash has no defined meaning and is excluded (wfGlob).",
-    technique="Lean 4 proof (language equality via verified regex matcher) + exhaustive model/implementation differential",
-    design="§4 C05",
-)
 
-CLAIMED["C17"] = dict(
-    text="Lean 4 theorems: C17_glob_partial (for every plain dep5 glob and every path python-debian's matcher and the "
-         "REUSE.toml matcher of the converted glob agree), C17_paragraph / C17_last_wins (any number of paragraphs: the "
-         "last matching one wins on both sides with the same payload), C17_order / C17_refuse / C17_final (dep5 removed only "
-         "after REUSE.toml exists; refusal without dep5). Tied to the code by an exhaustive dep5-glob x path differential "
-         "through both real matchers and by generated dep5 files linted before and after the real conversion.",
-    note="Partial: globs with an unescaped '?' or an asterisk run directly followed by '/' are excluded from the theorem "
-         "(dep5Plain) — both are genuine, recorded differences (known_findings.json). Trusted: Lean kernel, harness, CPython re "
-         "(mirrored by the verified matcher), python-debian's paragraph parser and tomlkit (exercised end to end, not modelled).",
-    technique="Lean 4 proof (regex language equality of dep5 glob and converted REUSE.toml glob) + exhaustive differential",
-    design="§4 C17",
-)
-
-CLAIMED["C04"] = dict(
-    text="Lean 4 theorem C04_items: for every chain of REUSE.toml levels of any depth, every own information and every "
-         "item, the model of NestedReuseTOML.reuse_info_of + Project.reuse_info_of (loop with break, reversed two-flag CLOSEST "
-         "clean-up, assembly with its special case) attributes the item to a source iff the declarative specification does "
-         "(override hides file and deeper levels, aggregate adds, closest supplies per attribute from the nearest provider); "
-         "plus C04_last_wins / C04_no_match / C04_override_hides / C04_sibling. Tied to the code by real trees on disk "
-         "through Project.reuse_info_of, enumerated completely at depth <=2 and sampled at depth 3-4, and dep5 projects.",
-    note="Trusted: Lean kernel, harness; glob matching is a parameter (C05) and reading the own source is generator ground "
-         "truth (C02). Source path and source kind of every reported item are checked by the correspondence, the "
-         "model abstracts them to 'level n' / 'own source'.",
-    technique="Lean 4 proof (model = membership specification, any chain depth) + exhaustive real-tree differential",
-    design="§4 C04",
-)
-
-CLAIMED["C03"] = dict(
-    text="Lean 4 theorems: C03_walk (for every directory tree of any depth and width, every VCS oracle and flag combination, "
-         "the model of the pruned os.walk in iter_files/is_path_ignored yields exactly the recursively specified covered "
-         "files), C03_pruned, C03_symlink, C03_empty_file, C03_subset. The name rules are the regular expressions of the "
-         "source, translated to the verified regex fragment by gen_tables.py on every run. Tied to the code by an exhaustive "
-         "name-rule differential, random trees on disk through the real iter_files / lint / spdx / annotate --recursive, and "
-         "random Git repositories judged by `git check-ignore`.",
-    note="Partial: Git is an oracle (check-ignore, .gitmodules), os.walk/stat are modelled by the tree type; the name "
-         "theorems (C03_names_partial, C03_dir_names, C03_meson_names) are about the patterns regenerated from the source "
-         "and hold for every name without a newline. Known findings: CAL-1.0/SHL-2.1 workaround names; ignored files inside wholly untracked "
-         "directories. Names containing a newline are a documented boundary. Only Git is installed.",
-    technique="Lean 4 proof (mutual structural induction over the tree) + generated regex tables + real-tree and real-Git differential",
-    design="§4 C03",
-)
-
+CLAIMED = load_claims()
 NOT_YET = {}
 
 
